@@ -20,6 +20,7 @@ import (
 
 type c14Term struct {
 	Src   string
+	Body  string `json:",omitempty"` // computed: the expression the name stands for (default "2d2")
 	Label string `json:",omitempty"` // what the annotation starts with when it is not the source (faceless dice: "2d" is shown as "2D3")
 	Kind  string // int | common | fate | coc | wod | dc | nested | chain | var | computed
 	X, Y, Mode, N int
@@ -49,6 +50,8 @@ var c14Terms = []c14Term{
 	{Src: "x", Kind: "var", Val: 4}, {Src: "力量", Kind: "var", Val: 7}, {Src: "cc", Kind: "computed", X: 2, Y: 2},
 	// faceless dice: the number of sides comes from DefaultDiceSideExpr ("3" in this check) and the annotation names it
 	{Src: "2d", Label: "2D3", Kind: "common", X: 2, Y: 3}, {Src: "3dk2", Label: "3D3kh2", Kind: "common", X: 3, Y: 3, Mode: 2, N: 2}, {Src: "2dq1", Label: "2D3kl1", Kind: "common", X: 2, Y: 3, Mode: 1, N: 1},
+	// drop counts beyond the dice rolled (nothing kept), and a computed value whose body contains multi-byte characters (it runs from its precompiled form)
+	{Src: "2d3dl3", Kind: "common", X: 2, Y: 3, Mode: 3, N: 3}, {Src: "1d3dh2", Kind: "common", X: 1, Y: 3, Mode: 4, N: 2}, {Src: "甲", Kind: "computed", X: 2, Y: 2, Mode: 2, N: 1, Body: "d2优势"},
 	{Src: "2ddl1", Label: "2D3dl1", Kind: "common", X: 2, Y: 3, Mode: 3, N: 1}, {Src: "2ddh1", Label: "2D3dh1", Kind: "common", X: 2, Y: 3, Mode: 4, N: 1}, {Src: "2dmin2", Label: "2D3min2", Kind: "common", X: 2, Y: 3, Min: ip(2)}, {Src: "2dmax2", Label: "2D3max2", Kind: "common", X: 2, Y: 3, Max: ip(2)},
 }
 
@@ -134,7 +137,7 @@ func c14Enumerate(tier string, seed int64, emit func(string, any)) {
 	}
 }
 
-const c14Prelude = "x = 4; 力量 = 7; &cc = 2d2"
+const c14Prelude = "x = 4; 力量 = 7; &cc = 2d2; &甲 = d2优势"
 
 // facesNeeded consumes the faces one term uses and returns its value, or ok=false.
 func c14TermValue(t c14Term, faces []int) (val int, used int, ok bool) {
@@ -535,6 +538,9 @@ func c14CheckAnnotation(t c14Term, rest string, faces []int, val int) string {
 			sub := t
 			sub.Kind = "common"
 			sub.Src = "2d2"
+			if t.Body != "" {
+				sub.Src = t.Body
+			}
 			if !strings.HasPrefix(anns[0], sub.Src) {
 				return "inner annotation does not name the computed expression"
 			}
